@@ -1315,7 +1315,7 @@ def check_symbolic(res: Result, cases: list[dict], deadline: float | None = None
             # a symbolic difference has numeric witnesses: look for one and shrink it (standard replay)
             rng = common.make_rng(1, "c10-sym:" + case_key(case)[:200])
             found = False
-            for _ in range(8):
+            for _ in range(24):
                 c = dict(case, points=[gen_point(rng, n)])
                 nb = fails(c, None)
                 if nb:
@@ -1326,8 +1326,14 @@ def check_symbolic(res: Result, cases: list[dict], deadline: float | None = None
                     found = True
                     break
             if not found:
+                # A symbolic difference without any numeric witness among 24 random points is not a failing input:
+                # it is what float rounding of the constants of a node evaluated numerically at construction
+                # (Taylor / convex-linear expansion points, divisions) leaves in the symbolic expression
+                # (seen: -4.4e-16 instead of 0 in a first-order Taylor node). A genuine discrepancy between two
+                # rational functions is non-zero at almost every point, so it has witnesses. Counted, never a verdict.
                 clause, msg = bad[0]
-                res.violate("oracle", f"{clause}:{root_sig(tree, n)}", msg, {"case": dict(case, symbolic=True), "clause": clause})
+                res.count("symbolic-difference-without-numeric-witness")
+                res.notes.append(f"symbolic difference without numeric witness (rounding of constants): {msg}"[:300])
     finally:
         pool.terminate()
         pool.join()
